@@ -42,7 +42,7 @@ TOKEN_ALPHABET = "abcXYZ019_|.-[]+:;,/#=@\"'"
 
 def budget(tier):
     if tier == "quick":
-        return {"examples": 4000, "shards": 16, "time_s": 60}
+        return {"examples": 16000, "shards": 16, "time_s": 60}
     return {"examples": 400000, "shards": 16, "time_s": 1500, "hard_s": 3600}
 
 
